@@ -498,6 +498,11 @@ class VF:
         if k == 'Variant':
             return T.app('is:' + pat['variant'], self.to_term(val))
         if k == 'Constant':
+            if pat.get('ty') == 'bool':
+                if '0x01' in pat['v'] or 'true' in pat['v']:
+                    return self.to_term(val)
+                if '0x00' in pat['v'] or 'false' in pat['v']:
+                    return T.lnot(self.to_term(val))
             return T.app('is:const:' + pat['v'][:40], self.to_term(val))
         return T.app('matches:' + k, self.to_term(val))
 
